@@ -462,4 +462,302 @@ theorem dispatch_unique (j : JVal) : (compatible j).length ≤ 1 := by
 example : compatible (.str "!units[5 gram]") = ["UnitsSerializer"] ∧
     compatible (.arr []) = ["SequenceDeserializer"] ∧ compatible (.int 3) = [] := by decide
 
+/-! ## round trip -/
+
+private theorem deserUnits_showQ (P : Pint) (m u : String) (h : QOk P m u) :
+    deserUnits P (showQ m u) = .ok (.quantity (P.norm m u) u) := by
+  obtain ⟨_, h | h⟩ := h
+  · obtain ⟨_, hn, hp⟩ := h
+    unfold deserUnits
+    simp [startsWithNan_showQ m u hn, hp]
+  · obtain ⟨rfl, hnorm, hstrip, m', hp⟩ := h
+    unfold deserUnits
+    have h1 : startsWithNan (showQ "nan" u).toList = true := by
+      rw [nan_showQ_toList]; simp [startsWithNan, stripPrefix?]
+    have h2 : (showQ "nan" u).toList.drop 3 = ' ' :: u.toList := by
+      rw [nan_showQ_toList]; rfl
+    simp [h1, h2, hstrip, String.ofList_toList, hp, nanTimes, hnorm]
+
+private theorem deser_quantityStr (P : Pint) (m u : String) (h : QOk P m u) :
+    deserialize P (.str (quantityStr m u)) = .ok (.quantity (P.norm m u) u) := by
+  simp only [deserialize, tagContent_quantityStr m u h.1]
+  exact deserUnits_showQ P m u h
+
+private theorem deser_unit (P : Pint) (u : String) (h : UOk P u) :
+    deserialize P (.str (tagUnits u)) = .ok (.quantity (P.norm "1" u) u) := by
+  obtain ⟨hnl, hn, hp⟩ := h
+  simp only [deserialize, tagContent_tagUnits u hnl]
+  unfold deserUnits
+  simp [hn, hp]
+
+private theorem deser_qarr (P : Pint) (u : String) : ∀ (ms : List String),
+    (∀ m ∈ ms, QOk P m u) →
+    deserializeList P (ms.map fun m => JVal.str (quantityStr m u)) =
+      .ok (ms.map fun m => PVal.quantity (P.norm m u) u)
+  | [], _ => rfl
+  | m :: ms, h => by
+    have h1 := deser_quantityStr P m u (h m (by simp))
+    have h2 := deser_qarr P u ms (fun m' hm' => h m' (by simp [hm']))
+    simp only [List.map_cons, deserializeList, h1, h2]
+
+mutual
+private theorem rt_v (P : Pint) : ∀ (v : PVal) (j : JVal), RTOk P v → serialize v = .ok j →
+    deserialize P j = .ok (view P.norm v)
+  | .none, j, _, h => by simp [serialize] at h; subst h; rfl
+  | .bool b, j, _, h => by simp [serialize] at h; subst h; rfl
+  | .int i, j, _, h => by
+    simp only [serialize] at h; split at h <;> simp at h; subst h; rfl
+  | .float t, j, _, h => by
+    simp only [serialize, floatJ] at h; simp at h; subst h
+    simp only [view, floatView]; split <;> rfl
+  | .str s, j, hr, h => by
+    simp [serialize] at h; subst h
+    simp only [RTOk] at hr
+    simp [deserialize, hr, view]
+  | .npStr s, j, hr, h => by
+    simp [serialize] at h; subst h
+    simp only [RTOk] at hr
+    simp [deserialize, hr, view]
+  | .npInt i, j, _, h => by
+    simp only [serialize] at h; split at h <;> simp at h; subst h; rfl
+  | .npFloat t, j, _, h => by
+    simp only [serialize, floatJ] at h; simp at h; subst h
+    simp only [view, floatView]; split <;> rfl
+  | .npBool b, j, _, h => by simp [serialize] at h; subst h; rfl
+  | .list xs, j, hr, h => by
+    obtain ⟨js, hx, rfl⟩ := map_ok_inv (by simpa only [serialize] using h)
+    simp only [RTOk] at hr
+    simp [deserialize, view, rt_l P xs js hr hx, Except.map]
+  | .tuple xs, j, hr, h => by
+    obtain ⟨js, hx, rfl⟩ := map_ok_inv (by simpa only [serialize] using h)
+    simp only [RTOk] at hr
+    simp [deserialize, view, rt_l P xs js hr hx, Except.map]
+  | .set xs, j, hr, h => by
+    obtain ⟨js, hx, rfl⟩ := map_ok_inv (by simpa only [serialize] using h)
+    simp only [RTOk] at hr
+    simp [deserialize, view, rt_l P xs js hr hx, Except.map]
+  | .ndarray xs, j, hr, h => by
+    obtain ⟨js, hx, rfl⟩ := map_ok_inv (by simpa only [serialize] using h)
+    simp only [RTOk] at hr
+    simp [deserialize, view, rt_l P xs js hr hx, Except.map]
+  | .dict kvs, j, hr, h => by
+    obtain ⟨js, hx, rfl⟩ := map_ok_inv (by simpa only [serialize] using h)
+    simp only [RTOk] at hr
+    simp [deserialize, view, rt_k P kvs js hr hx, Except.map]
+  | .quantity m u, j, hr, h => by
+    simp [serialize] at h; subst h
+    simp only [RTOk] at hr
+    simpa [view] using deser_quantityStr P m u hr
+  | .quantityArr ms u, j, hr, h => by
+    simp [serialize] at h; subst h
+    simp only [RTOk] at hr
+    simp [deserialize, view, deser_qarr P u ms hr, Except.map]
+  | .unit u, j, hr, h => by
+    simp [serialize] at h; subst h
+    simp only [RTOk] at hr
+    simpa [view] using deser_unit P u hr
+  | .process r, j, _, h => by
+    simp [serialize] at h; subst h
+    simp [deserialize, tagContent_tagProcess, view]
+  | .function r, j, _, h => by
+    simp [serialize] at h; subst h
+    simp [deserialize, tagContent_tagFunction, view]
+  | .unsupported t, j, _, h => by simp [serialize] at h
+private theorem rt_l (P : Pint) : ∀ (xs : List PVal) (js : List JVal), RTOkList P xs →
+    serializeList xs = .ok js → deserializeList P js = .ok (viewList P.norm xs)
+  | [], js, _, h => by simp [serializeList] at h; subst h; rfl
+  | x :: xs, js, hr, h => by
+    obtain ⟨j, js', hx, hxs, rfl⟩ := serializeList_cons_inv h
+    simp only [RTOkList] at hr
+    simp [deserializeList, viewList, rt_v P x j hr.1 hx, rt_l P xs js' hr.2 hxs]
+private theorem rt_k (P : Pint) : ∀ (kvs : List (Key × PVal)) (js : List (String × JVal)),
+    RTOkKVs P kvs → serializeKVs kvs = .ok js → deserializeKVs P js = .ok (viewKVs P.norm kvs)
+  | [], js, _, h => by simp [serializeKVs] at h; subst h; rfl
+  | (k, v) :: rest, js, hr, h => by
+    obtain ⟨s, j, js', rfl, hx, hxs, rfl⟩ := serializeKVs_cons_inv h
+    simp only [RTOkKVs] at hr
+    simp [deserializeKVs, viewKVs, rt_v P v j hr.1 hx, rt_k P rest js' hr.2 hxs]
+end
+
+/-- **Round trip** (partial: number formatting is a hypothesis).
+
+Full statement: *for every tree of supported values, `deserialize_value(serialize_value(v))`
+equals `v` wherever a deserializer exists* — quantities with the same magnitude and units
+(nan, ±inf, zero, negative, huge, tiny, compound units included), containers with the same
+structure, plain data unchanged.
+
+Proved here, for every tree `v` that serializes (`j`) and every pint `P`:
+`deserialize P j = view P.norm v`, where `view` is `v` with tuples / sets / arrays as lists,
+numpy scalars as Python scalars, a unit `u` as the quantity `1 u`, non-finite *plain* floats
+as `None`, processes / functions as their tagged strings (no deserializer exists) and each
+magnitude as pint re-reads it (`P.norm m u`, numerically `m`) — **under** `RTOk P v`:
+(a) no string leaf matches the reserved `!units[...]` pattern, (b) for every quantity the pint
+hypotheses `QOk` (`units(str(q))` is `q`; no newline in `str(q)`; a nan magnitude prints as
+`nan` and the unit string has no surrounding blanks), (c) for every bare unit `UOk`
+(`units(str(u))` is `1 u`) **and its name does not start with `nan`**.
+
+Missing for the full statement: (b)/(c) are facts about pint's `str` and `parse_expression`,
+not provable without re-implementing pint — they are sampled against the real pint by the
+correspondence check and shown satisfiable by `token_pint_ok`; the `nan`-prefix exclusion in (c)
+is a genuine gap of the code, see `bare_unit_nan_prefix_fails`. -/
+theorem roundtrip_partial (P : Pint) (v : PVal) (j : JVal) (hr : RTOk P v)
+    (h : serialize v = .ok j) : deserialize P j = .ok (view P.norm v) := rt_v P v j hr h
+
+/-- the token-level stand-in for pint satisfies the hypotheses on concrete quantities (so
+`roundtrip_partial` is not vacuous), including nan, inf, a compound unit and an int magnitude
+that pint re-reads as a float -/
+theorem token_pint_ok :
+    QOk Pint.token "5" "femtogram" ∧ QOk Pint.token "nan" "femtogram" ∧
+    QOk Pint.token "-inf" "gram / liter ** 2" ∧ QOk Pint.token "1e+22" "millimole / gram / hour" ∧
+    QOk Pint.token "3" "count / femtoliter" ∧ UOk Pint.token "millimole / gram / hour" ∧
+    UOk Pint.token "femtogram" := by
+  refine ⟨⟨by decide, Or.inl ⟨by decide, by decide, by rfl⟩⟩,
+          ⟨by decide, Or.inr ⟨rfl, by rfl, by decide, ⟨"1", by rfl⟩⟩⟩,
+          ⟨by decide, Or.inl ⟨by decide, by decide, by rfl⟩⟩,
+          ⟨by decide, Or.inl ⟨by decide, by decide, by rfl⟩⟩,
+          ⟨by decide, Or.inl ⟨by decide, by decide, by rfl⟩⟩,
+          ⟨by decide, by decide, by rfl⟩, ⟨by decide, by decide, by rfl⟩⟩
+
+example :
+    let v := PVal.dict [(.str "a", .tuple [.quantity "nan" "femtogram", .unit "femtogram",
+               .set [.npInt 3, .float "inf"], .quantityArr ["5"] "femtogram"]),
+             (.str "b", .str "!units[")]
+    RTOk Pint.token v ∧
+    (serialize v).toOption.map (deserialize Pint.token) =
+      some (.ok (.dict [(.str "a", .list [.quantity "nan" "femtogram", .quantity "1" "femtogram",
+               .list [.int 3, .none], .list [.quantity "5" "femtogram"]]),
+             (.str "b", .str "!units[")])) := by
+  refine ⟨?_, by rfl⟩
+  simp only [RTOk, RTOkKVs, RTOkList, List.mem_singleton, forall_eq]
+  refine ⟨⟨token_pint_ok.2.1, token_pint_ok.2.2.2.2.2.2, ⟨trivial, trivial, trivial⟩,
+    token_pint_ok.1, trivial⟩, by decide, trivial⟩
+
+/-- **A bare unit whose name starts with `nan` does not round-trip** (`nanometer`, `nanogram`,
+`nanomolar` …): `UnitsSerializer.deserialize` takes the leading `nan` for a nan magnitude, so for
+EVERY pint the result is computed from `units("ometer")` — an error for the real registry, and
+never the unit that was serialized.  (Candidate finding; hence the exclusion in `UOk`.) -/
+theorem bare_unit_nan_prefix_fails (P : Pint) (u : String) (hnl : NoNL u)
+    (hn : startsWithNan u.toList = true) :
+    serialize (.unit u) = .ok (.str (tagUnits u)) ∧
+    deserialize P (.str (tagUnits u)) =
+      (match P.parse (String.ofList (pyStripL (u.toList.drop 3))) with
+       | .ok r => .ok (nanTimes r)
+       | .error e => .error e) := by
+  refine ⟨rfl, ?_⟩
+  simp only [deserialize, tagContent_tagUnits u hnl]
+  unfold deserUnits
+  simp only [hn, if_true]
+  cases P.parse (String.ofList (pyStripL (u.toList.drop 3))) <;> rfl
+
+example : String.ofList (pyStripL ("nanometer".toList.drop 3)) = "ometer" ∧
+    deserialize Pint.token (.str (tagUnits "nanometer")) = .ok (.quantity "nan" "ometer") := by
+  constructor <;> rfl
+
+/-! ## plain data -/
+
+mutual
+private theorem pu_v (P : Pint) : ∀ (j : JVal), NoTagJ j → deserialize P j = .ok (embed j)
+  | .null, _ => rfl
+  | .bool _, _ => rfl
+  | .int _, _ => rfl
+  | .float _, _ => rfl
+  | .str s, h => by simp only [NoTagJ] at h; simp [deserialize, h, embed]
+  | .arr xs, h => by
+    simp only [NoTagJ] at h
+    simp [deserialize, embed, pu_l P xs h, Except.map]
+  | .obj kvs, h => by
+    simp only [NoTagJ] at h
+    simp [deserialize, embed, pu_k P kvs h, Except.map]
+private theorem pu_l (P : Pint) : ∀ (xs : List JVal), NoTagJList xs →
+    deserializeList P xs = .ok (embedList xs)
+  | [], _ => rfl
+  | x :: xs, h => by
+    simp only [NoTagJList] at h
+    simp [deserializeList, embedList, pu_v P x h.1, pu_l P xs h.2]
+private theorem pu_k (P : Pint) : ∀ (kvs : List (String × JVal)), NoTagJKVs kvs →
+    deserializeKVs P kvs = .ok (embedKVs kvs)
+  | [], _ => rfl
+  | (k, x) :: rest, h => by
+    simp only [NoTagJKVs] at h
+    simp [deserializeKVs, embedKVs, pu_v P x h.1, pu_k P rest h.2]
+end
+
+/-- **Plain data is returned unchanged** by `deserialize_value`: JSON data none of whose strings
+matches the units pattern comes back as the very same data, whatever pint does. -/
+theorem plain_unchanged (P : Pint) (j : JVal) (h : NoTagJ j) : deserialize P j = .ok (embed j) :=
+  pu_v P j h
+
+example : deserialize Pint.token (.obj [("a", .arr [.str "!units[5 g", .int 2, .null])]) =
+    .ok (.dict [(.str "a", .list [.str "!units[5 g", .int 2, .none])]) := by rfl
+
+mutual
+private theorem pv_v (n : String → String → String) : ∀ (v : PVal), PlainP v = true → view n v = v
+  | .none, _ => rfl
+  | .bool _, _ => rfl
+  | .int _, _ => rfl
+  | .float t, h => by
+    simp only [PlainP] at h
+    have : nonFinite t = false := by simpa using h
+    simp [view, floatView, this]
+  | .str _, _ => rfl
+  | .list xs, h => by simp only [PlainP] at h; simp [view, pv_l n xs h]
+  | .dict kvs, h => by simp only [PlainP] at h; simp [view, pv_k n kvs h]
+  | .npStr _, h | .npInt _, h | .npFloat _, h | .npBool _, h | .tuple _, h | .set _, h
+  | .ndarray _, h | .quantity _ _, h | .quantityArr _ _, h | .unit _, h | .process _, h
+  | .function _, h | .unsupported _, h => by simp [PlainP] at h
+private theorem pv_l (n : String → String → String) : ∀ (xs : List PVal),
+    PlainPList xs = true → viewList n xs = xs
+  | [], _ => rfl
+  | x :: xs, h => by
+    simp only [PlainPList, Bool.and_eq_true] at h
+    simp [viewList, pv_v n x h.1, pv_l n xs h.2]
+private theorem pv_k (n : String → String → String) : ∀ (kvs : List (Key × PVal)),
+    PlainPKVs kvs = true → viewKVs n kvs = kvs
+  | [], _ => rfl
+  | (k, v) :: rest, h => by
+    simp only [PlainPKVs, Bool.and_eq_true] at h
+    simp [viewKVs, pv_v n v h.1.2, pv_k n rest h.2]
+end
+
+mutual
+private theorem ps_v : ∀ (v : PVal), PlainP v = true → Supported v = true
+  | .none, _ => rfl
+  | .bool _, _ => rfl
+  | .int _, h => by simpa [PlainP, Supported] using h
+  | .float _, _ => rfl
+  | .str _, _ => rfl
+  | .list xs, h => by simp only [PlainP] at h; simpa [Supported] using ps_l xs h
+  | .dict kvs, h => by simp only [PlainP] at h; simpa [Supported] using ps_k kvs h
+  | .npStr _, h | .npInt _, h | .npFloat _, h | .npBool _, h | .tuple _, h | .set _, h
+  | .ndarray _, h | .quantity _ _, h | .quantityArr _ _, h | .unit _, h | .process _, h
+  | .function _, h | .unsupported _, h => by simp [PlainP] at h
+private theorem ps_l : ∀ (xs : List PVal), PlainPList xs = true → SupportedList xs = true
+  | [], _ => rfl
+  | x :: xs, h => by
+    simp only [PlainPList, Bool.and_eq_true] at h
+    simp [SupportedList, ps_v x h.1, ps_l xs h.2]
+private theorem ps_k : ∀ (kvs : List (Key × PVal)), PlainPKVs kvs = true → SupportedKVs kvs = true
+  | [], _ => rfl
+  | (k, v) :: rest, h => by
+    simp only [PlainPKVs, Bool.and_eq_true] at h
+    simp [SupportedKVs, h.1.1, ps_v v h.1.2, ps_k rest h.2]
+end
+
+/-- **Exact round trip of plain data**: a tree of `None` / bool / 64-bit ints / finite floats /
+strings not matching the reserved pattern / lists / str-keyed dicts is serialized (never
+rejected) and deserialized to exactly itself — no hypothesis about pint. -/
+theorem plain_roundtrip_exact (P : Pint) (v : PVal) (hp : PlainP v = true) (hr : RTOk P v) :
+    ∃ j, serialize v = .ok j ∧ deserialize P j = .ok v := by
+  obtain ⟨j, hj⟩ := accepts v (ps_v v hp)
+  refine ⟨j, hj, ?_⟩
+  rw [roundtrip_partial P v j hr hj, pv_v P.norm v hp]
+
+example :
+    let v := PVal.dict [(.str "a", .list [.int (-3), .float "1e+300", .str "!units[", .none]),
+                        (.str "!units[k]", .bool true)]
+    PlainP v = true ∧ RTOk Pint.token v := by
+  refine ⟨by rfl, ?_⟩
+  simp only [RTOk, RTOkKVs, RTOkList]
+  exact ⟨⟨trivial, trivial, by decide, trivial, trivial⟩, trivial, trivial⟩
+
 end VivProps.C14
